@@ -418,6 +418,8 @@ def case_dataset_tracks(ctx, nvars=2):
     for nm in names:
         got = frame[nm].values[0]
         v = data[nm]
+        ctx.check(ctx.Not(ctx.isnan(got)), "D-DS.defined", info=dict(variable=nm, what="a point inside the time / "
+                  "latitude range is never missing, whatever its longitude"))
         terms = [(a * b, v[0, il, ik]) for il, a in wl for ik, b in wk]
         if nm == "hs":
             ctx.check(ctx.eq(got, sum(w * x for w, x in terms)), "D-DS.linear", info="scalar variable: multilinear")
